@@ -271,5 +271,10 @@ func (m *toolManager) handleCallTool(
 		return newJSONRPCErrorResponse(req.ID, ErrCodeInternal, errMsg, nil), nil
 	}
 
+	// The schema wants an array: a nil slice would be encoded as null.
+	if result != nil && result.Content == nil {
+		result.Content = []Content{}
+	}
+
 	return result, nil
 }
